@@ -33,6 +33,62 @@ def buffer_sites(P, fn, field, N):
     return out
 
 
+BUF_WRITERS = {'strcpy', 'strcat', 'strncpy', 'strncat', 'memcpy', 'memmove', 'memset', 'sprintf', 'vsprintf', 'snprintf', 'vsnprintf'}
+
+
+def buffer_writes(P, fn, field, N):
+    """nodes that store through the object's buffer field or change one of the object's own fields"""
+    g = P.cfg(fn)
+    buf = ('arrow', ('param', 0), field)
+    out = []
+
+    def rooted(e):
+        e = N.canon(e)
+        return any(x == buf for x in ir.walk(e))
+    for n in g.live():
+        if n['expr'] is None:
+            continue
+        for ev in util.expr_events(n['expr'], n):
+            if ev['t'] == 'write':
+                t = ir.top_nocast(N.canon(ev['lhs']))
+                if t[0] == 'idx' and rooted(t[1]):
+                    out.append((n, 'store into the buffer'))
+                elif t[0] == 'un' and t[1] == '*' and rooted(t[2]):
+                    out.append((n, 'store into the buffer'))
+                elif t[0] == 'arrow' and ir.top_nocast(t[1]) == ('param', 0):
+                    out.append((n, 'store to field %s' % t[2]))
+            elif ev['t'] == 'call' and ev['name'] in BUF_WRITERS and ev['args'] and rooted(ev['args'][0]):
+                out.append((n, '%s into the buffer' % ev['name']))
+    return out
+
+
+def check_refusal_covers_mutation(P, ctx, unit, field, rule, types):
+    """a function that refuses stack / static objects (it tests the allocation class and raises ValueError) must not change the
+    object on a path that has not passed that test: the refusal and an unguarded mutation contradict each other"""
+    u = P.units[unit]
+    n_fn = 0
+    for fname, fn in sorted(u['functions'].items()):
+        if not fn['params'] or fn.get('body') is None:
+            continue
+        g = P.cfg(fn)
+        NE = util.Norm(P, fn, expand_locals=True, inline=False)
+        gds = {cls: alloc_guards(g, cls, NE) for cls in ('AllocStack', 'AllocStatic')}
+        if not any(gds.values()):
+            continue
+        N = util.Norm(P, fn)
+        n_fn += 1
+        ctx.fn(fn)
+        bad = []
+        for (n, what) in buffer_writes(P, fn, field, N):
+            for cls, gd in gds.items():
+                if gd and dominated_by_guard(g, n['id'], gd, 'ValueError') is None:
+                    bad.append('%s at %s is reachable without passing the refusal of %s objects' % (what, g.describe(n), cls))
+        ctx.check(not bad, rule, fname + ':refusal-first', site(fn),
+                  '%s refuses non-heap %s objects; nothing of the object is changed on a path that has not passed that refusal' % (fname, types),
+                  bad[:4] or None)
+    return n_fn
+
+
 def check_heap_only(P, ctx, unit, field, rule, types, skip=()):
     """every realloc/free of the buffer field is dominated by the refusal of
     stack and static objects"""
@@ -292,6 +348,8 @@ def run(ctx, load):
     n = check_heap_only(P, ctx, 'src/String.c', 'val', 'C16.heap-only', 'String')
     ctx.stats['call_sites'] += n
     ctx.floor('C16.heap-only', 12)
+    check_refusal_covers_mutation(P, ctx, 'src/String.c', 'val', 'C16.heap-only', 'String')
+    ctx.floor('C16.heap-only', 18)
     check_sizes(P, ctx)
     check_search(P, ctx)
     check_rem_extent(P, ctx)
